@@ -1,16 +1,17 @@
-"""C05 -- thin module (to be enriched): geometry engine with this property's oracles."""
+"""C05 -- membership tests agree with the denoted set (partial claim, DESIGN.md section 6)"""
 from . import geo_cases
 from .. import geosim
 from .geo_common import *  # noqa
 
 ID = "C05"
 LEVEL = "exploration"
-RULE = "see DESIGN.md"
-ASSUMPTIONS = GEO_ASSUMPTIONS
+PROBES = ('contains_judged', 'own_judged', 'probe_judged', 'check_in_b')
+RULE = ("geometry cases as in C01 (fault plans included); judged: (i) every _contains answer the library computed *during* simulated sampling, on every node of the expression (monitor), against the float64 margin for |margin| > 1e-3; (ii) the library's own samples (interior samples with margin > 1e-3, all own boundary samples) must be accepted by its own membership test; (iii) ~400 reference probe points per case in the enlarged box, each row with its own parameter row, plus structured probes on the extension of polygon edges for boundary predicates; answer must have one truth value per row. non-trivial = at least one answer judged; distinct = (feature cell, fired fault kinds)")
+ASSUMPTIONS = GEO_ASSUMPTIONS + ['(iii) is plain input generation riding on the simulation and is labelled as such', "own boundary samples of translated/rotated boundaries are not judged (float32 round trip through the isometry vs. the library's isclose tolerance: conditioning)", 'behaviour within 1e-3 of the boundary is not decided']
 
 
 def budget(tier):
-    return {"cases": 4000 if tier == "quick" else 100000, "wall": 600 if tier == "quick" else 3300,
+    return {"cases": 5000 if tier == "quick" else 150000, "wall": 600 if tier == "quick" else 3300,
             "shrink": 80, "det_legs": 6}
 
 
@@ -20,5 +21,5 @@ def gen_case(seed, tier="quick"):
 
 def run_case(case):
     rec = geosim.run_case(case, props=(ID,))
-    finish(rec, case, judged_key="rows_judged")
+    finish(rec, case, judged_key='probe_judged')
     return rec
